@@ -177,6 +177,38 @@ func ruleMapIterCond(c *Ctx, r *R) {
 			}
 		}
 		r.ok(covers, "parallel.mapIterator.Next|signal-covers-flip", call.Pos(), why)
+		// ... and the value tested is the count AFTER this consumer gave its slot back: the decrement precedes the read of
+		// inFlight that the test uses (a test on the old value never sees bufferSize-1 when there is only one slot)
+		tested := false
+		afterDec := true
+		for _, gd := range guardsOf(b) {
+			cf, ok := gd.asCmp()
+			if !ok {
+				continue
+			}
+			for _, side := range []ssa.Value{cf.x, cf.y} {
+				ld, ok := resolveVal(side).(*ssa.UnOp)
+				if !ok || ld.Op != token.MUL {
+					continue
+				}
+				if _, f, ok := storedField(ld.X); !ok || f != "inFlight" {
+					continue
+				}
+				tested = true
+				dec := false
+				instrs(ld.Parent(), func(sb *ssa.BasicBlock, si int, sin ssa.Instruction) {
+					if isFieldIncDec(sin, "inFlight", -1) && ((sb == ld.Block() && si < idxIn(ld)) || (sb != ld.Block() && sb.Dominates(ld.Block()))) {
+						dec = true
+					}
+				})
+				if !dec {
+					afterDec = false
+				}
+			}
+		}
+		if tested {
+			r.ok(afterDec, "parallel.mapIterator.Next|signal-tests-new-count", call.Pos(), "the Signal test reads inFlight before this call's own decrement: with a single slot the old value is never bufferSize-1, the dispatcher is never woken and the iterator stalls after its first result")
+		}
 	}
 	if nSig == 0 {
 		r.violated("parallel.mapIterator.Next|signal-covers-flip", nx.Pos(), "the consumer never signals the dispatcher")
